@@ -142,6 +142,11 @@ func (h *Sources) Delete(sources ...string) {
 	if len(sources) == 0 {
 		h.list = make(map[string]Source)
 		h.names = make([]string, 0)
+		h.sourcePos = 0
+
+		if !h.infer {
+			h.hpos = -1
+		}
 
 		return
 	}
